@@ -103,3 +103,48 @@ package htlcswitch
 //@
 //@ lemma routeHopExpiryGap(eo int, tld int, maxc int): 0 <= eo && 0 <= tld && tld <= maxc ==> deltaOK(eo + tld, eo, tld, maxc)
 //@   props C19
+//@
+//@ func (cm *circuitMap) FailCircuit
+//@   props C07
+//@   requires cm != nil
+//@   ensures result1 == nil ==> old(has(cm.pending, inKey)) && !old(has(cm.closed, inKey)) && result0 == old(cm.pending[inKey]) &&
+//@           has(cm.closed, inKey)
+//@   ensures old(has(cm.pending, inKey)) && old(has(cm.closed, inKey)) ==> result1 == ErrCircuitClosing && result0 == nil
+//@   ensures !old(has(cm.pending, inKey)) ==> result1 == ErrUnknownCircuit && result0 == nil
+//@   ensures result1 != nil ==> has(cm.closed, inKey) == old(has(cm.closed, inKey))
+//@
+//@ func (cm *circuitMap) CloseCircuit
+//@   props C07
+//@   requires cm != nil
+//@   requires old(has(cm.opened, outKey)) ==> cm.opened[outKey] != nil
+//@   let c0 = old(cm.opened[outKey])
+//@   ensures result1 == nil ==> old(has(cm.opened, outKey)) && result0 == c0 && !old(has(cm.closed, c0.Incoming)) &&
+//@           has(cm.closed, c0.Incoming)
+//@   ensures old(has(cm.opened, outKey)) && old(has(cm.closed, c0.Incoming)) ==> result1 == ErrCircuitClosing && result0 == nil
+//@   ensures !old(has(cm.opened, outKey)) ==> result1 == ErrUnknownCircuit && result0 == nil
+//@
+//@ func (c *PaymentCircuit) InKey
+//@   inline
+//@
+//@ func (c *PaymentCircuit) HasKeystone
+//@   inline
+//@
+//@ func (c *PaymentCircuit) OutKey
+//@   inline
+//@
+//@ func (cm *circuitMap) CommitCircuits
+//@   props C07
+//@   requires cm != nil
+//@   loop * havoc
+//@   let wasPending = prevheap(has(cm.pending, circuit.Incoming))
+//@   let found = prevheap(cm.pending[circuit.Incoming])
+//@   loop 1 step !wasPending ==> has(cm.pending, circuit.Incoming) && cm.pending[circuit.Incoming] == circuit &&
+//@        len(adds) == prev(len(adds)) + 1 && len(drops) == prev(len(drops)) && len(fails) == prev(len(fails)) &&
+//@        len(addFails) == prev(len(addFails)) + 1
+//@   loop 1 step wasPending ==> len(adds) == prev(len(adds)) && cm.pending[circuit.Incoming] == found &&
+//@        len(drops) == prev(len(drops)) + ite(found.Outgoing != nil || !found.LoadedFromDisk, 1, 0) &&
+//@        len(fails) == prev(len(fails)) + ite(found.Outgoing != nil || !found.LoadedFromDisk, 0, 1)
+//@   loop 3 step !has(cm.pending, circuit.Incoming)
+//@   site store CircuitFwdActions.Adds: assert ret(Batch) == nil && value == adds
+//@   ensures result1 == nil && len(result0.Adds) > 0 ==> ret(Batch) == nil
+//@   ensures result0 != nil
